@@ -6,8 +6,11 @@ package main
 
 import (
 	"fmt"
+	"regexp"
 	"strconv"
 	"strings"
+	"sync"
+	"time"
 
 	"raven/verifh/hist"
 	"raven/verifh/hx"
@@ -183,7 +186,111 @@ func main() {
 		}
 		run(ops, "generated")
 	}
+	if len(rep.Violations) == 0 {
+		slowRecreate(rep, w)
+		rounds := 40
+		if o.Thorough {
+			rounds = 600
+		}
+		concurrentWriters(rep, w, rounds)
+	}
 	rep.Note("histories=%d", rep.Evaluations)
 	_ = fmt.Sprint
 	rep.Finish()
+}
+
+var reValidity = regexp.MustCompile(`UIDVALIDITY (\d+)`)
+var reAppUID = regexp.MustCompile(`APPENDUID (\d+) (\d+)`)
+
+// slowRecreate: DELETE and CREATE of one name more than a clock second apart (so that finding C03-F1 does not apply): every
+// incarnation of the name carries a UIDVALIDITY that name never had before, right after the user was provisioned and later
+func slowRecreate(rep *hx.Report, w *world.World) {
+	rep.Case("slow-recreate", true)
+	c := w.Login("slowrecreate@example.com")
+	defer c.Close()
+	seen := map[string]int{}
+	for inc := 0; inc < 3; inc++ {
+		if !c.Cmd("CREATE Work").OK() {
+			rep.Violate("broken-correspondence", "slow-recreate", "CREATE Work refused", nil)
+			return
+		}
+		r := c.Append("Work", "", hist.Msg(7000+inc))
+		st := c.Cmd("STATUS Work (UIDVALIDITY)")
+		v := ""
+		for _, l := range st.Untagged {
+			if m := reValidity.FindStringSubmatch(l); m != nil {
+				v = m[1]
+			}
+		}
+		if prev, ok := seen[v]; ok {
+			rep.Violate("impl-violation", "UIDVALIDITY never used with that name before (Props.C03)", fmt.Sprintf("incarnation %d of mailbox Work (created %d.2 s after incarnation %d was deleted) carries UIDVALIDITY %s again, and APPEND answers %q for a different message", inc, inc-prev, prev, v, r.Tagged), []string{"slow-recreate"})
+			return
+		}
+		seen[v] = inc
+		c.Cmd("DELETE Work")
+		time.Sleep(1200 * time.Millisecond)
+	}
+	rep.Hit("slow-recreate:fresh")
+}
+
+// concurrentWriters: two APPENDs and two deliveries on one INBOX at the same time ("every interleaving of two or more writers
+// on the same mailbox"): UIDs stay distinct, and the UID announced by APPENDUID is the UID under which that message is found
+func concurrentWriters(rep *hx.Report, w *world.World, rounds int) {
+	u := "cw@example.com"
+	c0 := w.Login(u)
+	c0.Close()
+	id := 20000
+	for r := 0; r < rounds && len(rep.Violations) == 0; r++ {
+		rep.Case(fmt.Sprintf("concurrent-writers|%d", r), true)
+		type ap struct {
+			id    int
+			reply string
+		}
+		var mu sync.Mutex
+		var aps []ap
+		var wg sync.WaitGroup
+		for i := 0; i < 4; i++ {
+			id++
+			wg.Add(1)
+			go func(i, id int) {
+				defer wg.Done()
+				if i%2 == 0 {
+					c := w.Login(u)
+					rr := c.Append("INBOX", "", hist.Msg(id))
+					c.Close()
+					mu.Lock()
+					aps = append(aps, ap{id, rr.Tagged})
+					mu.Unlock()
+				} else {
+					w.Deliver("sender@example.org", []string{u}, hist.Msg(id))
+				}
+			}(i, id)
+		}
+		wg.Wait()
+		c := w.Login(u)
+		c.Cmd("EXAMINE INBOX")
+		byUID := map[string]string{}
+		dup := ""
+		for _, l := range c.Cmd("UID FETCH 1:* (BODY.PEEK[HEADER.FIELDS (SUBJECT)])").Untagged {
+			mu := regexp.MustCompile(`UID (\d+)`).FindStringSubmatch(l)
+			ms := regexp.MustCompile(`Subject: m(\d+)`).FindStringSubmatch(l)
+			if mu != nil && ms != nil {
+				if _, ok := byUID[mu[1]]; ok {
+					dup = mu[1]
+				}
+				byUID[mu[1]] = ms[1]
+			}
+		}
+		c.Close()
+		if dup != "" {
+			rep.Violate("impl-violation", "no UID is given to a second message (Props.C03, concurrent writers)", fmt.Sprintf("round %d: UID %s is listed twice in INBOX of %s", r, dup, u), []string{"concurrent-writers"})
+		}
+		for _, a := range aps {
+			if m := reAppUID.FindStringSubmatch(a.reply); m != nil {
+				if byUID[m[2]] != fmt.Sprint(a.id) {
+					rep.Violate("impl-violation", "APPENDUID is the UID under which the message is found (Props.C03, concurrent writers)", fmt.Sprintf("round %d: APPEND of m%d was answered %q but UID %s holds m%s", r, a.id, a.reply, m[2], byUID[m[2]]), []string{"concurrent-writers"})
+				}
+			}
+		}
+	}
 }
